@@ -50,12 +50,13 @@ SolveLin(Mx, r) ==
 
 \* ---- right-hand sides ------------------------------------------------------
 FI(L, u) == MV(L.A, u)
-FE(L, u) == VAdd(MV(L.B, u), [i \in 1 .. Len(u) |-> Md(L.c * u[i] * u[i])])
-FT(L, u) == VAdd(FI(L, u), FE(L, u))
+\* the explicit part may depend on time: forcing tn[m]*g at node m (tn[m] = image of the node time in Z_P)
+FE(L, u, m) == VAdd(VAdd(MV(L.B, u), [i \in 1 .. Len(u) |-> Md(L.c * u[i] * u[i])]), VSc(L.tn[m], L.g))
+FT(L, u, m) == VAdd(FI(L, u), FE(L, u, m))
 
 \* ---- integrate(): dt * Q * F(U) ----------------------------------------------
 Integrate(L, U) ==
-    [m \in 1 .. L.M |-> VSum([j \in 1 .. L.M |-> VSc(Md(L.dt * L.Q[m][j]), FT(L, U[j]))], L.n)]
+    [m \in 1 .. L.M |-> VSum([j \in 1 .. L.M |-> VSc(Md(L.dt * L.Q[m][j]), FT(L, U[j], j))], L.n)]
 
 TauAt(L, tau, m) == IF tau = <<>> THEN Zero(L.n) ELSE tau[m]
 
@@ -70,7 +71,7 @@ ResidualNorms(L, u0, U, tau) ==   \* <<max over nodes, last node, nnz(u0)>> ; ab
 \* ---- end point ------------------------------------------------------------------
 EndPoint(L, u0, U, tau) ==
     IF L.rightnode /\ ~ L.collupdate THEN U[L.M]
-    ELSE VAdd(VAdd(u0, VSum([m \in 1 .. L.M |-> VSc(Md(L.dt * L.w[m]), FT(L, U[m]))], L.n)),
+    ELSE VAdd(VAdd(u0, VSum([m \in 1 .. L.M |-> VSc(Md(L.dt * L.w[m]), FT(L, U[m], m))], L.n)),
               IF tau = <<>> THEN Zero(L.n) ELSE tau[L.M])
 
 \* ---- sweeps: transcription of update_nodes ------------------------------------------
@@ -79,10 +80,10 @@ EndPoint(L, u0, U, tau) ==
 Known(L, kind, u0, U, tau) ==
     [m \in 1 .. L.M |->
         LET terms == [j \in 1 .. L.M |->
-                CASE kind = "impl" -> VSc(Md(L.dt * (L.Q[m][j] - L.QI[m][j] + P)), FT(L, U[j]))
-                  [] kind = "expl" -> VSc(Md(L.dt * (L.Q[m][j] - L.QE[m][j] + P)), FT(L, U[j]))
+                CASE kind = "impl" -> VSc(Md(L.dt * (L.Q[m][j] - L.QI[m][j] + P)), FT(L, U[j], j))
+                  [] kind = "expl" -> VSc(Md(L.dt * (L.Q[m][j] - L.QE[m][j] + P)), FT(L, U[j], j))
                   [] kind = "imex" -> VAdd(VSc(Md(L.dt * (L.Q[m][j] - L.QI[m][j] + P)), FI(L, U[j])),
-                                           VSc(Md(L.dt * (L.Q[m][j] - L.QE[m][j] + P)), FE(L, U[j])))]
+                                           VSc(Md(L.dt * (L.Q[m][j] - L.QE[m][j] + P)), FE(L, U[j], j)))]
         IN VAdd(VAdd(VSum(terms, L.n), u0), TauAt(L, tau, m))]
 
 RECURSIVE Forward(_, _, _, _, _)
@@ -90,9 +91,9 @@ RECURSIVE Forward(_, _, _, _, _)
 Forward(L, kind, known, Unew, m) ==
     IF m > L.M THEN Unew
     ELSE LET lower == [j \in 1 .. m - 1 |->
-                CASE kind = "impl" -> VSc(Md(L.dt * L.QI[m][j]), FT(L, Unew[j]))
-                  [] kind = "expl" -> VSc(Md(L.dt * L.QE[m][j]), FT(L, Unew[j]))
-                  [] kind = "imex" -> VAdd(VSc(Md(L.dt * L.QI[m][j]), FI(L, Unew[j])), VSc(Md(L.dt * L.QE[m][j]), FE(L, Unew[j])))]
+                CASE kind = "impl" -> VSc(Md(L.dt * L.QI[m][j]), FT(L, Unew[j], j))
+                  [] kind = "expl" -> VSc(Md(L.dt * L.QE[m][j]), FT(L, Unew[j], j))
+                  [] kind = "imex" -> VAdd(VSc(Md(L.dt * L.QI[m][j]), FI(L, Unew[j])), VSc(Md(L.dt * L.QE[m][j]), FE(L, Unew[j], j)))]
              rhs == VAdd(known[m], VSum(lower, L.n))
              um  == IF kind = "expl" THEN rhs
                     ELSE IF kind = "impl" /\ Md(L.dt * L.QI[m][m]) = 0 THEN rhs
@@ -125,7 +126,7 @@ Sweep(L, kind, u0, U, tau) ==
 \* end value of a Runge-Kutta step: last stage if the last row of the Butcher matrix equals the weights, else u0 + dt sum w F
 EndPointRK(L, u0, U) ==
     IF L.QI[L.M] = L.w THEN U[L.M]
-    ELSE VAdd(u0, VSum([m \in 1 .. L.M |-> VSc(Md(L.dt * L.w[m]), FT(L, U[m]))], L.n))
+    ELSE VAdd(u0, VSum([m \in 1 .. L.M |-> VSc(Md(L.dt * L.w[m]), FT(L, U[m], m))], L.n))
 
 SweepDefined(L, kind) ==
     CASE kind = "expl"  -> TRUE
@@ -145,13 +146,13 @@ PicardHolds(L, kind, u0, U, tau, Unew) ==
             IN VSub(v, VSc(Md(L.dt * L.QI[m][m]), FI(L, v)))
                  = VAdd(KnownMulti(L, u0, U, tau)[m], VSum([j \in 1 .. m - 1 |-> VSc(Md(L.dt * L.QI[m][j]), FI(L, Unew[j]))], L.n))
     ELSE IF kind = "rk" THEN \A m \in 1 .. L.M :
-            Unew[m] = VAdd(u0, VSum([j \in 1 .. m |-> VSc(Md(L.dt * L.QI[m][j]), FT(L, Unew[j]))], L.n))
+            Unew[m] = VAdd(u0, VSum([j \in 1 .. m |-> VSc(Md(L.dt * L.QI[m][j]), FT(L, Unew[j], j))], L.n))
     ELSE
     \A m \in 1 .. L.M :
-        LET lhs == CASE kind = "impl" -> VSub(Unew[m], VSum([j \in 1 .. L.M |-> VSc(Md(L.dt * L.QI[m][j]), FT(L, Unew[j]))], L.n))
-                     [] kind = "expl" -> VSub(Unew[m], VSum([j \in 1 .. L.M |-> VSc(Md(L.dt * L.QE[m][j]), FT(L, Unew[j]))], L.n))
+        LET lhs == CASE kind = "impl" -> VSub(Unew[m], VSum([j \in 1 .. L.M |-> VSc(Md(L.dt * L.QI[m][j]), FT(L, Unew[j], j))], L.n))
+                     [] kind = "expl" -> VSub(Unew[m], VSum([j \in 1 .. L.M |-> VSc(Md(L.dt * L.QE[m][j]), FT(L, Unew[j], j))], L.n))
                      [] kind = "imex" -> VSub(Unew[m], VSum([j \in 1 .. L.M |->
-                                                VAdd(VSc(Md(L.dt * L.QI[m][j]), FI(L, Unew[j])), VSc(Md(L.dt * L.QE[m][j]), FE(L, Unew[j])))], L.n))
+                                                VAdd(VSc(Md(L.dt * L.QI[m][j]), FI(L, Unew[j])), VSc(Md(L.dt * L.QE[m][j]), FE(L, Unew[j], j)))], L.n))
         IN lhs = Known(L, kind, u0, U, tau)[m]
 
 \* ---- C01: a fixed point of the sweep has zero defect (for ANY lower-triangular preconditioner) ----
